@@ -403,7 +403,7 @@ def rot_invariance(kind, norb, nu, nd, what="energy"):
     return [o]
 
 
-def rot_invariance_ucisd(norb=3, nu=2, nd=1, what="energy"):
+def rot_invariance_ucisd(norb=3, nu=2, nd=1, what="energy", kind="ucisd"):
     """C15.rot.inv.<what>.ucisd: the alpha reference of ucisd is 'the first nu orbitals of the working basis', so the rotations that keep the trial
     representable are C = R_occ (+) R_virt (exact rational orthogonal blocks).  Rotating the Hamiltonian with rotate_orbs, walkers and the beta
     orbitals mo_coeff[1] with C^T, and the alpha indices of the amplitudes with R_occ / R_virt leaves overlap, energy and force bias unchanged."""
@@ -412,7 +412,7 @@ def rot_invariance_ucisd(norb=3, nu=2, nd=1, what="energy"):
     import jax.numpy as jnp
     from ad_afqmc import hamiltonian
     nel = (nu, nd)
-    c = Case("ucisd", norb, nel, nchol=2 if what != "energy" else 1)
+    c = Case(kind, norb, nel, nchol=2 if what != "energy" else 1, restricted=(kind != "ucisd"))
     sp = c.inp.sp
     Ro, Rv = rational_orthogonal(nu), rational_orthogonal(norb - nu, "rot")
     M = np.zeros((norb, norb), dtype=object)
@@ -429,27 +429,32 @@ def rot_invariance_ucisd(norb=3, nu=2, nd=1, what="energy"):
     pick = lambda a, s_, x_: s_ if is_obj(a) else x_
     left = lambda v: H.both(lambda a: pick(a, Cs, Cx).T.dot(a), v)
     W = c.wave
-    wave2 = dict(mo_coeff=[W["mo_coeff"][0], left(W["mo_coeff"][1])],
+    if kind != "ucisd":          # restricted cisd: both spins share the reference; every amplitude index is transformed
+        wave2 = dict(ci1=H.both(lambda a: np.einsum("ip,ia,aq->pq", pick(a, Ros, Rox), a, pick(a, Rvs, Rvx)), W["ci1"]),
+                     ci2=H.both(lambda a: np.einsum("ip,aq,jr,bs,iajb->pqrs", pick(a, Ros, Rox), pick(a, Rvs, Rvx), pick(a, Ros, Rox), pick(a, Rvs, Rvx), a), W["ci2"]))
+    else:
+      wave2 = dict(mo_coeff=[W["mo_coeff"][0], left(W["mo_coeff"][1])],
                  ci1A=H.both(lambda a: np.einsum("ip,ia,aq->pq", pick(a, Ros, Rox), a, pick(a, Rvs, Rvx)), W["ci1A"]), ci1B=W["ci1B"],
                  ci2AA=H.both(lambda a: np.einsum("ip,aq,jr,bs,iajb->pqrs", pick(a, Ros, Rox), pick(a, Rvs, Rvx), pick(a, Ros, Rox), pick(a, Rvs, Rvx), a), W["ci2AA"]),
                  ci2BB=W["ci2BB"],
                  ci2AB=H.both(lambda a: np.einsum("ip,aq,iajb->pqjb", pick(a, Ros, Rox), pick(a, Rvs, Rvx), a), W["ci2AB"]))
+    sfx_m = "" if kind == "ucisd" else "_restricted"
     w1 = list(c.walkers())
     w2 = [left(w) for w in w1]
     wvs, wvx = c.sx(c.wave)
     wvs2, wvx2 = c.sx(wave2)
     s1, x1 = c.sx(tuple(w1))
     s2, x2 = c.sx(tuple(w2))
-    name = f"C15.rot.inv.{what}.{tag('ucisd', norb, nel)}"
+    name = f"C15.rot.inv.{what}.{tag(kind, norb, nel)}"
     fns = ["hamiltonian.hamiltonian.rotate_orbs"]
     mi = c.trial._build_measurement_intermediates
     if what == "overlap":
-        fn, meth = c.trial._calc_overlap, "_calc_overlap"
+        fn, meth = getattr(c.trial, "_calc_overlap" + sfx_m), "_calc_overlap" + sfx_m
         a, _ = evaluate(sp, fn, tuple(s1) + (wvs,), tuple(x1) + (wvx,))
         b, _ = evaluate(sp, fn, tuple(s2) + (wvs2,), tuple(x2) + (wvx2,))
         nat = lambda: (np.asarray(fn(*x1, wvx)), np.asarray(fn(*x2, wvx2)))
     else:
-        meth = {"energy": "_calc_energy", "fb": "_calc_force_bias"}[what]
+        meth = {"energy": "_calc_energy", "fb": "_calc_force_bias"}[what] + sfx_m
         fn = getattr(c.trial, meth)
         ha_s, _ = evaluate(sp, mi, (hs, wvs), (dict(hx), wvx))
         hb_s, _ = evaluate(sp, mi, (hs2, wvs2), (dict(hx2), wvx2))
